@@ -146,6 +146,8 @@ type recorder struct {
 	// harness closes it when Exchange has returned): a display that is busy while the exchange ends.
 	gate  chan struct{}
 	gated bool
+	// previews: the messages read from the proposals named by Done reports of received transfers
+	previews []preview
 }
 
 func (r *recorder) UpdateStatus(s fbb.Status) {
@@ -171,10 +173,40 @@ func (r *recorder) UpdateStatus(s fbb.Status) {
 			}
 		}
 	}
+	var pv *preview
+	if s.Done && s.Receiving != nil && s.Receiving.DataIsComplete() {
+		// a display that shows the received message when its transfer is done: the proposal a Done report names
+		// holds that message - also a moment later, while the session is already receiving the next one
+		time.Sleep(2 * time.Millisecond)
+		pv = &preview{mid: s.Receiving.MID()}
+		if m, err := s.Receiving.Message(); err != nil {
+			pv.err = err.Error()
+		} else if raw, err := m.Bytes(); err != nil {
+			pv.err = "serialising the previewed message: " + err.Error()
+		} else {
+			pv.raw = raw
+		}
+	}
 	r.mu.Lock()
 	r.log = append(r.log, s)
 	r.sink += seen
+	if pv != nil {
+		r.previews = append(r.previews, *pv)
+	}
 	r.mu.Unlock()
+}
+
+// preview: what a Done report's Receiving proposal yielded when the display read its message.
+type preview struct {
+	mid string
+	err string
+	raw []byte
+}
+
+func (r *recorder) previewed() []preview {
+	r.mu.Lock()
+	defer r.mu.Unlock()
+	return append([]preview(nil), r.previews...)
 }
 
 func (r *recorder) snapshot() []fbb.Status {
@@ -461,6 +493,23 @@ func attemptPair(c vrt.Case) (vrt.Obs, map[string]bool) {
 	}
 	check("A", ra, sc.MsgsA, sc.MsgsB)
 	check("B", rb, sc.MsgsB, sc.MsgsA)
+	// "names that message": the proposal of a Done report holds the message that was transferred
+	for _, side := range []struct {
+		name     string
+		rec      *recorder
+		receives []b2fx.MsgSpec
+	}{{"A", ra, sc.MsgsB}, {"B", rb, sc.MsgsA}} {
+		got := map[string][]byte{}
+		for _, pv := range side.rec.previewed() {
+			o.Count("messages_read_from_done_reports", 1)
+			if pv.err != "" {
+				o.Violate("status-done-proposal-unreadable", "station %s: the proposal named by the Done report of %s does not yield its message: %s", side.name, pv.mid, pv.err)
+				continue
+			}
+			got[pv.mid] = pv.raw
+		}
+		b2fx.CheckContent(&o, side.receives, got, side.name+" (message read from the Done report)")
+	}
 	o.Count("periodic_reports", int64(periodic))
 	o.Count("exchange_ms", res.Duration.Milliseconds())
 	if periodic > 0 {
